@@ -70,6 +70,8 @@ func Shrink(sc *core.Scenario, fails Failing, budget int) (*core.Scenario, int) 
 			func(c *core.Scenario) bool { if c.Knobs.Listeners == 1 { return false }; c.Knobs.Listeners = 1; return true },
 			func(c *core.Scenario) bool { if c.Knobs.SplitAt == 0 { return false }; c.Knobs.SplitAt = 0; return true },
 			func(c *core.Scenario) bool { if c.Knobs.RefetchFrom == nil { return false }; c.Knobs.RefetchFrom = nil; return true },
+			func(c *core.Scenario) bool { if !c.Knobs.OtherInstanceFirst { return false }; c.Knobs.OtherInstanceFirst = false; return true },
+			func(c *core.Scenario) bool { if !c.Knobs.RemoveOnInstance { return false }; c.Knobs.RemoveOnInstance = false; return true },
 			func(c *core.Scenario) bool { if len(c.Calls) == 0 { return false }; c.Calls = nil; return true },
 			func(c *core.Scenario) bool { if !c.Knobs.RetErr { return false }; c.Knobs.RetErr = false; return true },
 			func(c *core.Scenario) bool { if len(c.Removed) == 0 { return false }; c.Removed = nil; return true },
